@@ -279,6 +279,8 @@ class Evaluator:
 
     def truth(self, v):
         """Boolean view of a value as a term."""
+        if isinstance(v, BoundExt):
+            v = self.lib.as_v(self, v)
         if isinstance(v, Const):
             return Const(bool(v.value))
         if isinstance(v, (Obj, FuncV, ClassV, ModV, ExtV, LambdaV)):
@@ -1154,6 +1156,10 @@ class Evaluator:
                 return Lst(a.items + b.items)
         if isinstance(a, Const) and isinstance(a.value, str) and isinstance(b, Const) and isinstance(b.value, str) and op == "Add":
             return Const(a.value + b.value)
+        if isinstance(a, BoundExt):
+            a = self.lib.as_v(self, a)
+        if isinstance(b, BoundExt):
+            b = self.lib.as_v(self, b)
         ta, tb = _num_tuple(a), _num_tuple(b)
         if (ta or tb) and isinstance(a, V) and isinstance(b, V) and (ta or to_poly(a) is not None) and (tb or to_poly(b) is not None):
             n = len(a.items) if ta else len(b.items)
@@ -1263,6 +1269,10 @@ class Evaluator:
             r = self.lib.contains(self, b, a, node)
             return r if op == "In" else negate(r)
         sym = {"Eq": "==", "NotEq": "!=", "Lt": "<", "LtE": "<=", "Gt": ">", "GtE": ">="}[op]
+        if isinstance(a, BoundExt):
+            a = self.lib.as_v(self, a)
+        if isinstance(b, BoundExt):
+            b = self.lib.as_v(self, b)
         if sym in ("==", "!="):
             # user-defined __eq__ on enums / objects
             for x, y in ((a, b), (b, a)):
